@@ -1,4 +1,6 @@
 import PercevalModel.Model.C01
+import Mathlib.Algebra.Ring.Pi
+import Mathlib.Algebra.Star.Pi
 
 open Matrix
 
@@ -58,5 +60,650 @@ theorem Items.WF_shift {k m off : ℕ} (h : off + k ≤ m) : (a : Items R) → (
   | .cons o c r, ha => by
     simp only [Items.WF, Items.shift] at *
     exact ⟨by omega, ha.2.1, Items.WF_shift h r ha.2.2⟩
+
+/-! ## base change -/
+
+theorem embed_map {S : Type} [Zero R] [One R] [Zero S] [One S] (φ : R → S) (h0 : φ 0 = 0)
+    (h1 : φ 1 = 1) (N o : ℕ) {k : ℕ} (B : Matrix (Fin k) (Fin k) R) :
+    (embed N o B).map φ = embed N o (B.map φ) := by
+  ext i j
+  simp only [embed, place, Matrix.map_apply]
+  cases unshift N o k i <;> cases unshift N o k j <;> simp [h0]
+  split <;> simp [h0, h1]
+
+mutual
+  theorem embed_unitaryOf_map {S : Type} [CommRing R] [CommRing S] (φ : R →+* S) :
+      (c : Comp R) → ∀ N o : ℕ,
+        embed N o (unitaryOf (c.map φ)) = (embed N o (unitaryOf c)).map φ
+    | .leaf k U, N, o => by
+      rw [Comp.map, embed_unitaryOf_leaf, embed_unitaryOf_leaf,
+        embed_map φ (map_zero φ) (map_one φ)]
+    | .circ m items, N, o => by
+      rw [Comp.map, embed_unitaryOf_circ, embed_unitaryOf_circ, prodItems_map φ m items,
+        embed_map φ (map_zero φ) (map_one φ)]
+  theorem prodItems_map {S : Type} [CommRing R] [CommRing S] (φ : R →+* S) (m : ℕ) :
+      (items : Items R) → prodItems m (items.map φ) = (prodItems m items).map φ
+    | .nil => by
+      rw [Items.map, prodItems_nil, prodItems_nil, Matrix.map_one φ (map_zero φ) (map_one φ)]
+    | .cons o c r => by
+      rw [Items.map, prodItems_cons, prodItems_cons, Matrix.map_mul, prodItems_map φ m r,
+        embed_unitaryOf_map φ c m o]
+end
+
+mutual
+  theorem Comp.map_map {S T : Type} (f : R → S) (g : S → T) :
+      (c : Comp R) → (c.map f).map g = c.map (g ∘ f)
+    | .leaf k U => by simp [Comp.map, Matrix.map_map]
+    | .circ m items => by simp [Comp.map, Items.map_map f g items]
+  theorem Items.map_map {S T : Type} (f : R → S) (g : S → T) :
+      (l : Items R) → (l.map f).map g = l.map (g ∘ f)
+    | .nil => by simp [Items.map]
+    | .cons o c r => by simp [Items.map, Comp.map_map f g c, Items.map_map f g r]
+end
+
+mutual
+  theorem Comp.map_id : (c : Comp R) → c.map id = c
+    | .leaf k U => by simp [Comp.map]
+    | .circ m items => by simp [Comp.map, Items.map_id items]
+  theorem Items.map_id : (l : Items R) → l.map id = l
+    | .nil => by simp [Items.map]
+    | .cons o c r => by simp [Items.map, Comp.map_id c, Items.map_id r]
+end
+
+theorem Comp.size_map {S : Type} (φ : R → S) : (c : Comp R) → (c.map φ).size = c.size
+  | .leaf _ _ => rfl
+  | .circ _ _ => rfl
+
+mutual
+  theorem Comp.WF_map {S : Type} (φ : R → S) : (c : Comp R) → c.WF → (c.map φ).WF
+    | .leaf _ _, _ => by simp [Comp.map, Comp.WF]
+    | .circ m items, h => by
+      rw [Comp.map]; exact Items.WF_map φ m items h
+  theorem Items.WF_map {S : Type} (φ : R → S) (m : ℕ) : (l : Items R) → l.WF m → (l.map φ).WF m
+    | .nil, _ => by simp [Items.map, Items.WF]
+    | .cons o c r, h => by
+      simp only [Items.WF] at h
+      rw [Items.map]
+      simp only [Items.WF]
+      exact ⟨by rw [Comp.size_map]; exact h.1, Comp.WF_map φ c h.2.1, Items.WF_map φ m r h.2.2⟩
+end
+
+/-- positions reported by iteration do not depend on the coefficients -/
+def Flat.mapC {S : Type} (φ : R → S) (l : Flat R) : Flat S :=
+  l.map fun p => (p.1, ⟨p.2.1, p.2.2.map φ⟩)
+
+mutual
+  theorem flatten_map {S : Type} (φ : R → S) :
+      (c : Comp R) → flatten (c.map φ) = Flat.mapC φ (flatten c)
+    | .leaf k U => by simp [Comp.map, flatten, Flat.mapC]
+    | .circ m items => by
+      rw [Comp.map, flatten, flatten, flattenItems_map φ items]
+  theorem flattenItems_map {S : Type} (φ : R → S) :
+      (l : Items R) → flattenItems (l.map φ) = Flat.mapC φ (flattenItems l)
+    | .nil => by simp [Items.map, flattenItems, Flat.mapC]
+    | .cons o c r => by
+      rw [Items.map, flattenItems, flattenItems, flatten_map φ c, flattenItems_map φ r]
+      simp [Flat.mapC]
+end
+
+/-! ## heap evaluation = product over the resolved tree -/
+
+theorem resolveItems_append (rs : ℕ → Comp R) (a b : List (ℕ × HItem R)) :
+    resolveItems rs (a ++ b) = (resolveItems rs a).append (resolveItems rs b) := by
+  induction a with
+  | nil => rfl
+  | cons p r ih =>
+    obtain ⟨o, it⟩ := p
+    cases it <;> simp [resolveItems, Items.append, ih]
+
+theorem resolveItems_congr (rs rs' : ℕ → Comp R) (l : List (ℕ × HItem R))
+    (hl : ∀ p ∈ l, ∀ j, p.2 = .ref j → rs j = rs' j) : resolveItems rs l = resolveItems rs' l := by
+  induction l with
+  | nil => rfl
+  | cons p r ih =>
+    obtain ⟨o, it⟩ := p
+    have ih' := ih (fun q hq => hl q (by simp [hq]))
+    cases it with
+    | val c => simp [resolveItems, ih']
+    | ref j =>
+      have := hl (o, .ref j) (by simp) j rfl
+      simp [resolveItems, ih', this]
+
+theorem prodH_eq {S : Type} [CommRing S] (φ : R → S) (msz : ℕ → ℕ)
+    (ev : (j : ℕ) → MatV S (msz j) (msz j)) (its : ℕ → Items R)
+    (hev : ∀ j, (ev j).toMatrix = prodItems (msz j) ((its j).map φ)) (m : ℕ)
+    (l : List (ℕ × HItem R)) :
+    (prodH φ msz ev m l).toMatrix =
+      prodItems m ((resolveItems (fun k => .circ (msz k) (its k)) l).map φ) := by
+  induction l with
+  | nil => simp [prodH, resolveItems, Items.map]
+  | cons p r ih =>
+    obtain ⟨o, it⟩ := p
+    cases it with
+    | val c =>
+      simp only [prodH, resolveItems, Items.map, prodItems_cons, MatV.toMatrix_ofMatrix, ih]
+      rfl
+    | ref j =>
+      simp only [prodH, resolveItems, Items.map, Comp.map, prodItems_cons, MatV.toMatrix_ofMatrix,
+        ih, embed_unitaryOf_circ, hev]
+
+theorem evalV_eq {S : Type} [CommRing S] (φ : R → S) (h : Heap R) : ∀ f j,
+    (evalV φ h f j).toMatrix = prodItems (h.msize j) ((resolveIt h f j).map φ)
+  | 0, j => by simp [evalV, resolveIt, Items.map]
+  | f + 1, j => by
+    rw [evalV, resolveIt]
+    exact prodH_eq φ h.msize (evalV φ h f) (resolveIt h f) (evalV_eq φ h f) _ _
+
+/-! ## the heap: signature (sizes, ranks) is never changed by `push`; `alloc` only adds an entry -/
+
+@[simp] theorem Heap.msize_push (h : Heap R) (i : ℕ) (new : List (ℕ × HItem R)) (k : ℕ) :
+    (h.push i new).msize k = h.msize k := by
+  simp only [Heap.push, Heap.msize]; split
+  · next hk => subst hk; rfl
+  · rfl
+
+@[simp] theorem Heap.rank_push (h : Heap R) (i : ℕ) (new : List (ℕ × HItem R)) (k : ℕ) :
+    (h.push i new).rank k = h.rank k := by
+  simp only [Heap.push, Heap.rank]; split
+  · next hk => subst hk; rfl
+  · rfl
+
+@[simp] theorem Heap.size_push (h : Heap R) (i : ℕ) (new : List (ℕ × HItem R)) :
+    (h.push i new).size = h.size := rfl
+
+theorem Heap.items_push_self (h : Heap R) (i : ℕ) (new : List (ℕ × HItem R)) :
+    (h.push i new).items i = h.items i ++ new := by
+  simp [Heap.push, Heap.items]
+
+theorem Heap.items_push_ne (h : Heap R) (i : ℕ) (new : List (ℕ × HItem R)) {k : ℕ} (hk : k ≠ i) :
+    (h.push i new).items k = h.items k := by
+  simp [Heap.push, Heap.items, hk]
+
+theorem Heap.cell_push_ne (h : Heap R) (i : ℕ) (new : List (ℕ × HItem R)) {k : ℕ} (hk : k ≠ i) :
+    (h.push i new).cell k = h.cell k := by
+  simp [Heap.push, hk]
+
+@[simp] theorem Heap.size_alloc (h : Heap R) (c : Cell R) : (h.alloc c).size = h.size + 1 := rfl
+
+theorem Heap.cell_alloc_ne (h : Heap R) (c : Cell R) {k : ℕ} (hk : k ≠ h.size) :
+    (h.alloc c).cell k = h.cell k := by
+  simp [Heap.alloc, hk]
+
+theorem Heap.cell_alloc_self (h : Heap R) (c : Cell R) : (h.alloc c).cell h.size = c := by
+  simp [Heap.alloc]
+
+theorem Heap.msize_alloc_ne (h : Heap R) (c : Cell R) {k : ℕ} (hk : k ≠ h.size) :
+    (h.alloc c).msize k = h.msize k := by simp [Heap.msize, Heap.cell_alloc_ne h c hk]
+
+theorem Heap.rank_alloc_ne (h : Heap R) (c : Cell R) {k : ℕ} (hk : k ≠ h.size) :
+    (h.alloc c).rank k = h.rank k := by simp [Heap.rank, Heap.cell_alloc_ne h c hk]
+
+theorem Heap.items_alloc_ne (h : Heap R) (c : Cell R) {k : ℕ} (hk : k ≠ h.size) :
+    (h.alloc c).items k = h.items k := by simp [Heap.items, Heap.cell_alloc_ne h c hk]
+
+theorem HItem.Ok_mono {h h' : Heap R} {m r : ℕ} {p : ℕ × HItem R} (hp : HItem.Ok h m r p)
+    (hs : h.size ≤ h'.size)
+    (hsig : ∀ j, j < h.size → h'.rank j = h.rank j ∧ h'.msize j = h.msize j) :
+    HItem.Ok h' m r p := by
+  obtain ⟨o, it⟩ := p
+  cases it with
+  | val v => exact hp
+  | ref j =>
+    simp only [HItem.Ok] at hp ⊢
+    obtain ⟨h1, h2, h3⟩ := hp
+    obtain ⟨e1, e2⟩ := hsig j h1
+    exact ⟨by omega, by omega, by omega⟩
+
+theorem Heap.Ok_push {h : Heap R} (hOk : h.Ok) (i : ℕ) (new : List (ℕ × HItem R))
+    (hnew : ∀ p ∈ new, HItem.Ok h (h.msize i) (h.rank i) p) : (h.push i new).Ok := by
+  intro k p hp
+  have mono : ∀ {m r : ℕ} {q : ℕ × HItem R}, HItem.Ok h m r q → HItem.Ok (h.push i new) m r q :=
+    fun hq => HItem.Ok_mono hq (by simp) (by simp)
+  simp only [Heap.msize_push, Heap.rank_push]
+  by_cases hk : k = i
+  · subst hk
+    rw [Heap.items_push_self] at hp
+    rcases List.mem_append.mp hp with hp | hp
+    · exact mono (hOk k p hp)
+    · exact mono (hnew p hp)
+  · rw [Heap.items_push_ne h i new hk] at hp
+    exact mono (hOk k p hp)
+
+theorem Heap.Ok_alloc {h : Heap R} (hOk : h.Ok) (c : Cell R)
+    (hc : ∀ p ∈ c.items, HItem.Ok h c.m c.rank p) : (h.alloc c).Ok := by
+  have hsig : ∀ j, j < h.size → (h.alloc c).rank j = h.rank j ∧ (h.alloc c).msize j = h.msize j :=
+    fun j hj => ⟨Heap.rank_alloc_ne h c (by omega), Heap.msize_alloc_ne h c (by omega)⟩
+  intro k p hp
+  by_cases hk : k = h.size
+  · subst hk
+    simp only [Heap.items, Heap.msize, Heap.rank, Heap.cell_alloc_self] at hp ⊢
+    exact HItem.Ok_mono (hc p hp) (by simp) hsig
+  · rw [Heap.items_alloc_ne h c hk] at hp
+    rw [Heap.msize_alloc_ne h c hk, Heap.rank_alloc_ne h c hk]
+    exact HItem.Ok_mono (hOk k p hp) (by simp) hsig
+
+/-! ### snapshots are well formed; fuel beyond the rank changes nothing -/
+
+theorem resolveItems_WF {h : Heap R} {m r : ℕ} (rs : ℕ → Comp R) (hrs : ∀ k, (rs k).WF)
+    (hsz : ∀ k, (rs k).size = h.msize k) (l : List (ℕ × HItem R))
+    (hl : ∀ p ∈ l, HItem.Ok h m r p) : (resolveItems rs l).WF m := by
+  induction l with
+  | nil => simp [resolveItems, Items.WF]
+  | cons p t ih =>
+    obtain ⟨o, it⟩ := p
+    have ih' := ih (fun q hq => hl q (by simp [hq]))
+    have hp := hl (o, it) (by simp)
+    cases it with
+    | val c =>
+      simp only [HItem.Ok] at hp
+      simp only [resolveItems, Items.WF]
+      exact ⟨hp.2, hp.1, ih'⟩
+    | ref j =>
+      simp only [HItem.Ok] at hp
+      simp only [resolveItems, Items.WF]
+      exact ⟨by rw [hsz]; exact hp.2.2, hrs j, ih'⟩
+
+theorem resolveIt_WF {h : Heap R} (hOk : h.Ok) : ∀ f j, (resolveIt h f j).WF (h.msize j)
+  | 0, j => by simp [resolveIt, Items.WF]
+  | f + 1, j => by
+    rw [resolveIt]
+    exact resolveItems_WF (h := h) _ (fun k => by rw [Comp.WF]; exact resolveIt_WF hOk f k)
+      (fun k => rfl) _ (hOk j)
+
+theorem resolveIt_stable {h : Heap R} (hOk : h.Ok) : ∀ f f' j, h.rank j < f → h.rank j < f' →
+    resolveIt h f j = resolveIt h f' j
+  | 0, _, _, h1, _ => by omega
+  | _, 0, _, _, h2 => by omega
+  | f + 1, f' + 1, j, h1, h2 => by
+    rw [resolveIt, resolveIt]
+    apply resolveItems_congr
+    intro p hp k hk
+    have := hOk j p hp
+    obtain ⟨o, it⟩ := p
+    simp only at hk
+    subst hk
+    simp only [HItem.Ok] at this
+    rw [resolveIt_stable hOk f f' k (by omega) (by omega)]
+
+theorem snapshotItems_eq {h : Heap R} (hOk : h.Ok) (i : ℕ) :
+    snapshotItems h i = resolveItems (snapshot h) (h.items i) := by
+  unfold snapshotItems
+  rw [resolveIt]
+  apply resolveItems_congr
+  intro p hp k hk
+  have := hOk i p hp
+  obtain ⟨o, it⟩ := p
+  simp only at hk
+  subst hk
+  simp only [HItem.Ok] at this
+  simp only [snapshot, snapshotItems]
+  rw [resolveIt_stable hOk (h.rank i) (h.rank k + 1) k (by omega) (by omega)]
+
+/-! ### frame: appending to pool entry `i` is invisible from entries that cannot reach `i` -/
+
+theorem resolveIt_push_frame {h : Heap R} (hOk : h.Ok) (i : ℕ) (new : List (ℕ × HItem R)) :
+    ∀ f j, j ≠ i → h.rank j ≤ h.rank i → resolveIt (h.push i new) f j = resolveIt h f j
+  | 0, _, _, _ => rfl
+  | f + 1, j, hj, hr => by
+    rw [resolveIt, resolveIt, Heap.items_push_ne h i new hj]
+    apply resolveItems_congr
+    intro p hp k hk
+    have := hOk j p hp
+    obtain ⟨o, it⟩ := p
+    simp only at hk
+    subst hk
+    simp only [HItem.Ok] at this
+    have hki : k ≠ i := by rintro rfl; omega
+    rw [Heap.msize_push, resolveIt_push_frame hOk i new f k hki (by omega)]
+
+theorem snapshot_push_frame {h : Heap R} (hOk : h.Ok) (i : ℕ) (new : List (ℕ × HItem R)) {j : ℕ}
+    (hj : j ≠ i) (hr : h.rank j ≤ h.rank i) : snapshot (h.push i new) j = snapshot h j := by
+  simp only [snapshot, snapshotItems, Heap.msize_push, Heap.rank_push,
+    resolveIt_push_frame hOk i new _ j hj hr]
+
+theorem snapshotItems_push {h : Heap R} (hOk : h.Ok) (i : ℕ) (new : List (ℕ × HItem R))
+    (hnew : ∀ p ∈ new, HItem.Ok h (h.msize i) (h.rank i) p) :
+    snapshotItems (h.push i new) i = (snapshotItems h i).append (resolveItems (snapshot h) new) := by
+  have hOk' := Heap.Ok_push hOk i new hnew
+  rw [snapshotItems_eq hOk', snapshotItems_eq hOk, Heap.items_push_self, resolveItems_append]
+  have key : ∀ l : List (ℕ × HItem R), (∀ p ∈ l, HItem.Ok h (h.msize i) (h.rank i) p) →
+      resolveItems (snapshot (h.push i new)) l = resolveItems (snapshot h) l := by
+    intro l hl
+    apply resolveItems_congr
+    intro p hp k hk
+    have := hl p hp
+    obtain ⟨o, it⟩ := p
+    simp only at hk
+    subst hk
+    simp only [HItem.Ok] at this
+    exact snapshot_push_frame hOk i new (by rintro rfl; omega) (by omega)
+  rw [key _ (hOk i), key _ hnew]
+
+theorem resolveIt_alloc_frame {h : Heap R} (hOk : h.Ok) (c : Cell R) :
+    ∀ f j, j < h.size → resolveIt (h.alloc c) f j = resolveIt h f j
+  | 0, _, _ => rfl
+  | f + 1, j, hj => by
+    rw [resolveIt, resolveIt, Heap.items_alloc_ne h c (by omega)]
+    apply resolveItems_congr
+    intro p hp k hk
+    have := hOk j p hp
+    obtain ⟨o, it⟩ := p
+    simp only at hk
+    subst hk
+    simp only [HItem.Ok] at this
+    rw [Heap.msize_alloc_ne h c (by omega), resolveIt_alloc_frame hOk c f k this.1]
+
+theorem snapshot_alloc_frame {h : Heap R} (hOk : h.Ok) (c : Cell R) {j : ℕ} (hj : j < h.size) :
+    snapshot (h.alloc c) j = snapshot h j := by
+  simp only [snapshot, snapshotItems, Heap.msize_alloc_ne h c (Nat.ne_of_lt hj),
+    Heap.rank_alloc_ne h c (Nat.ne_of_lt hj), resolveIt_alloc_frame hOk c _ j hj]
+
+theorem resolveItems_shift (rs : ℕ → Comp R) (d : ℕ) (l : List (ℕ × HItem R)) :
+    resolveItems rs (l.map fun p => (p.1 + d, p.2)) = (resolveItems rs l).shift d := by
+  induction l with
+  | nil => rfl
+  | cons p t ih =>
+    obtain ⟨o, it⟩ := p
+    cases it <;> simp [resolveItems, Items.shift, ih]
+
+theorem resolveItems_freeze (h : Heap R) (φ : R → R) (rs : ℕ → Comp R) (l : List (ℕ × HItem R)) :
+    resolveItems rs (l.map fun p => (p.1, HItem.val (freezeItem h φ p.2))) =
+      (resolveItems (snapshot h) l).map φ := by
+  induction l with
+  | nil => rfl
+  | cons p t ih =>
+    obtain ⟨o, it⟩ := p
+    cases it <;> simp only [List.map_cons, resolveItems, ih, Items.map] <;> rfl
+
+theorem snapshot_frozen_cell (h' h : Heap R) (c m r : ℕ) (l : List (ℕ × HItem R)) (φ : R → R)
+    (hc : h'.cell c = ⟨m, r, l.map fun p => (p.1, HItem.val (freezeItem h φ p.2))⟩) :
+    snapshot h' c = .circ m ((resolveItems (snapshot h) l).map φ) := by
+  simp only [snapshot, snapshotItems, Heap.msize, Heap.rank, Heap.items, hc, resolveIt,
+    resolveItems_freeze]
+
+/-- a pool entry that holds everything by value does not depend on the rest of the pool -/
+theorem snapshot_closed (h h' : Heap R) (c : ℕ) (hc : h'.cell c = h.cell c)
+    (hv : ∀ p ∈ h.items c, ∀ j, p.2 ≠ .ref j) : snapshot h' c = snapshot h c := by
+  have e1 : h'.msize c = h.msize c := by simp [Heap.msize, hc]
+  have e2 : h'.rank c = h.rank c := by simp [Heap.rank, hc]
+  have e3 : h'.items c = h.items c := by simp [Heap.items, hc]
+  simp only [snapshot, snapshotItems, e1, e2, resolveIt, e3]
+  congr 1
+  apply resolveItems_congr
+  intro p hp j hj
+  exact absurd hj (hv p hp j)
+
+/-! ### every operation keeps the invariant -/
+
+theorem snapshot_WF {h : Heap R} (hOk : h.Ok) (i : ℕ) : (snapshot h i).WF := by
+  rw [snapshot, Comp.WF]; exact resolveIt_WF hOk _ i
+
+theorem applyOp_ok [Zero R] [One R] {h : Heap R} (hOk : h.Ok) (op : Op R) (hok : op.ok h = true) :
+    (applyOp h op).Ok := by
+  cases op with
+  | new m r => exact Heap.Ok_alloc hOk _ (by simp)
+  | leaf i off k U =>
+    simp only [Op.ok, Bool.and_eq_true, decide_eq_true_eq] at hok
+    apply Heap.Ok_push hOk
+    intro p hp
+    simp only [List.mem_singleton] at hp
+    subst hp
+    simp only [HItem.Ok, Comp.WF, Comp.size, true_and]
+    omega
+  | nest i j off =>
+    simp only [Op.ok, Bool.and_eq_true, decide_eq_true_eq] at hok
+    apply Heap.Ok_push hOk
+    intro p hp
+    simp only [List.mem_singleton] at hp
+    subst hp
+    simp only [HItem.Ok]
+    omega
+  | merge i j off =>
+    simp only [Op.ok, Bool.and_eq_true, decide_eq_true_eq] at hok
+    simp only [applyOp]
+    split
+    · apply Heap.Ok_push hOk
+      intro p hp
+      simp only [List.mem_singleton] at hp
+      subst hp
+      simp only [HItem.Ok]
+      omega
+    · next x xs hx =>
+      apply Heap.Ok_push hOk
+      intro p hp
+      obtain ⟨q, hq, rfl⟩ := List.mem_map.mp hp
+      have hq' := hOk j q (by rw [hx]; exact hq)
+      obtain ⟨o, it⟩ := q
+      cases it with
+      | val v =>
+        simp only [HItem.Ok] at hq' ⊢
+        exact ⟨hq'.1, by omega⟩
+      | ref k =>
+        simp only [HItem.Ok] at hq' ⊢
+        omega
+  | barrier i =>
+    apply Heap.Ok_push hOk
+    intro p hp
+    simp only [List.mem_singleton] at hp
+    subst hp
+    simp [HItem.Ok, Comp.WF, Comp.size, barrierItem]
+  | copy i φ =>
+    apply Heap.Ok_alloc hOk
+    intro p hp
+    obtain ⟨q, hq, rfl⟩ := List.mem_map.mp hp
+    have hq' := hOk i q hq
+    obtain ⟨o, it⟩ := q
+    cases it with
+    | val v =>
+      simp only [HItem.Ok] at hq'
+      simp only [HItem.Ok, freezeItem, Comp.size_map]
+      exact ⟨Comp.WF_map φ v hq'.1, hq'.2⟩
+    | ref k =>
+      simp only [HItem.Ok] at hq'
+      simp only [HItem.Ok, freezeItem, Comp.size_map]
+      exact ⟨Comp.WF_map φ _ (snapshot_WF hOk k), hq'.2.2⟩
+
+theorem step_ok [Zero R] [One R] {h : Heap R} (hOk : h.Ok) (op : Op R) : (step h op).Ok := by
+  unfold step
+  split
+  · next hok => exact applyOp_ok hOk op hok
+  · exact hOk
+
+theorem exec_ok_of [Zero R] [One R] (ops : List (Op R)) : ∀ {h : Heap R}, h.Ok → (exec h ops).Ok := by
+  induction ops with
+  | nil => intro h hOk; exact hOk
+  | cons op r ih => intro h hOk; exact ih (step_ok hOk op)
+
+theorem Heap.empty_ok : (Heap.empty : Heap R).Ok := by
+  intro i p hp; simp [Heap.empty, Heap.items] at hp
+
+/-- an operation that does not target entry `c` leaves that entry alone -/
+theorem step_cell_ne [Zero R] [One R] (h : Heap R) (op : Op R) {c : ℕ} (hc : c < h.size)
+    (ht : op.target ≠ some c) : (step h op).cell c = h.cell c ∧ h.size ≤ (step h op).size := by
+  unfold step
+  split
+  · cases op with
+    | new m r => exact ⟨Heap.cell_alloc_ne h _ (by omega), by simp [applyOp]⟩
+    | leaf i off k U =>
+      have : c ≠ i := by intro e; subst e; exact ht rfl
+      exact ⟨Heap.cell_push_ne h i _ this, by simp [applyOp]⟩
+    | nest i j off =>
+      have : c ≠ i := by intro e; subst e; exact ht rfl
+      exact ⟨Heap.cell_push_ne h i _ this, by simp [applyOp]⟩
+    | merge i j off =>
+      have : c ≠ i := by intro e; subst e; exact ht rfl
+      simp only [applyOp]
+      split
+      · exact ⟨Heap.cell_push_ne h i _ this, by simp⟩
+      · exact ⟨Heap.cell_push_ne h i _ this, by simp⟩
+    | barrier i =>
+      have : c ≠ i := by intro e; subst e; exact ht rfl
+      exact ⟨Heap.cell_push_ne h i _ this, by simp [applyOp]⟩
+    | copy i φ => exact ⟨Heap.cell_alloc_ne h _ (by omega), by simp [applyOp]⟩
+  · exact ⟨rfl, Nat.le_refl _⟩
+
+theorem exec_cell_ne [Zero R] [One R] (ops : List (Op R)) : ∀ (h : Heap R) {c : ℕ}, c < h.size →
+    (∀ op ∈ ops, op.target ≠ some c) → (exec h ops).cell c = h.cell c := by
+  induction ops with
+  | nil => intro h c _ _; rfl
+  | cons op r ih =>
+    intro h c hc ht
+    obtain ⟨e1, e2⟩ := step_cell_ne h op hc (ht op (by simp))
+    have := ih (step h op) (c := c) (by omega) (fun o ho => ht o (by simp [ho]))
+    simp only [exec, List.foldl_cons] at this ⊢
+    rw [this, e1]
+
+/-! ### unitarity -/
+
+theorem IsUnitary.map {S : Type} [CommRing R] [StarRing R] [CommRing S] [StarRing S] (φ : R →+* S)
+    (hφ : ∀ x, φ (star x) = star (φ x)) {n : Type} [Fintype n] [DecidableEq n] {U : Matrix n n R}
+    (hU : IsUnitary U) : IsUnitary (U.map φ) := by
+  have hc : (U.map φ)ᴴ = Uᴴ.map φ := (Matrix.conjTranspose_map (A := U) φ hφ).symm
+  constructor
+  · rw [hc, ← Matrix.map_mul, hU.1, Matrix.map_one φ (map_zero φ) (map_one φ)]
+  · rw [hc, ← Matrix.map_mul, hU.2, Matrix.map_one φ (map_zero φ) (map_one φ)]
+
+/-- `φ` sends unitary matrices to unitary matrices (any star-preserving ring homomorphism does) -/
+def PreservesUnitary [CommRing R] [StarRing R] (φ : R → R) : Prop :=
+  ∀ (k : ℕ) (U : Matrix (Fin k) (Fin k) R), IsUnitary U → IsUnitary (U.map φ)
+
+mutual
+  theorem Comp.AllUnitary_map [CommRing R] [StarRing R] (φ : R → R) (hφ : PreservesUnitary φ) :
+      (c : Comp R) → c.AllUnitary → (c.map φ).AllUnitary
+    | .leaf k U, h => by rw [Comp.map, Comp.AllUnitary]; exact hφ k U h
+    | .circ m items, h => by
+      rw [Comp.map, Comp.AllUnitary]; exact Items.AllUnitary_map φ hφ items h
+  theorem Items.AllUnitary_map [CommRing R] [StarRing R] (φ : R → R) (hφ : PreservesUnitary φ) :
+      (l : Items R) → l.AllUnitary → (l.map φ).AllUnitary
+    | .nil, _ => by simp [Items.map, Items.AllUnitary]
+    | .cons o c r, h => by
+      simp only [Items.AllUnitary] at h
+      rw [Items.map]
+      simp only [Items.AllUnitary]
+      exact ⟨Comp.AllUnitary_map φ hφ c h.1, Items.AllUnitary_map φ hφ r h.2⟩
+end
+
+theorem resolveItems_allUnitary [CommRing R] [StarRing R] (rs : ℕ → Comp R)
+    (hrs : ∀ k, (rs k).AllUnitary) (l : List (ℕ × HItem R))
+    (hl : ∀ p ∈ l, match p.2 with | .val v => v.AllUnitary | .ref _ => True) :
+    (resolveItems rs l).AllUnitary := by
+  induction l with
+  | nil => simp [resolveItems, Items.AllUnitary]
+  | cons p t ih =>
+    obtain ⟨o, it⟩ := p
+    have ih' := ih (fun q hq => hl q (by simp [hq]))
+    have hp := hl (o, it) (by simp)
+    cases it with
+    | val c => simp only [resolveItems, Items.AllUnitary]; exact ⟨hp, ih'⟩
+    | ref j => simp only [resolveItems, Items.AllUnitary]; exact ⟨hrs j, ih'⟩
+
+theorem resolveIt_allUnitary [CommRing R] [StarRing R] {h : Heap R} (hU : h.AllUnitary) :
+    ∀ f j, (resolveIt h f j).AllUnitary
+  | 0, _ => by simp [resolveIt, Items.AllUnitary]
+  | f + 1, j => by
+    rw [resolveIt]
+    exact resolveItems_allUnitary _
+      (fun k => by rw [Comp.AllUnitary]; exact resolveIt_allUnitary hU f k) _ (hU j)
+
+theorem snapshot_allUnitary [CommRing R] [StarRing R] {h : Heap R} (hU : h.AllUnitary) (i : ℕ) :
+    (snapshot h i).AllUnitary := by
+  rw [snapshot, Comp.AllUnitary]; exact resolveIt_allUnitary hU _ i
+
+/-- the leaves an operation brings in are unitary -/
+def Op.Unitary [CommRing R] [StarRing R] : Op R → Prop
+  | .leaf _ _ _ U => IsUnitary U
+  | .copy _ φ => PreservesUnitary φ
+  | _ => True
+
+theorem Heap.AllUnitary_push [CommRing R] [StarRing R] {h : Heap R} (hU : h.AllUnitary) (i : ℕ)
+    (new : List (ℕ × HItem R))
+    (hnew : ∀ p ∈ new, match p.2 with | .val v => v.AllUnitary | .ref _ => True) :
+    (h.push i new).AllUnitary := by
+  intro k p hp
+  by_cases hk : k = i
+  · subst hk
+    rw [Heap.items_push_self] at hp
+    rcases List.mem_append.mp hp with hp | hp
+    · exact hU k p hp
+    · exact hnew p hp
+  · rw [Heap.items_push_ne h i new hk] at hp
+    exact hU k p hp
+
+theorem Heap.AllUnitary_alloc [CommRing R] [StarRing R] {h : Heap R} (hU : h.AllUnitary)
+    (c : Cell R) (hc : ∀ p ∈ c.items, match p.2 with | .val v => v.AllUnitary | .ref _ => True) :
+    (h.alloc c).AllUnitary := by
+  intro k p hp
+  by_cases hk : k = h.size
+  · subst hk
+    simp only [Heap.items, Heap.cell_alloc_self] at hp
+    exact hc p hp
+  · rw [Heap.items_alloc_ne h c hk] at hp
+    exact hU k p hp
+
+theorem step_allUnitary [CommRing R] [StarRing R] {h : Heap R} (hU : h.AllUnitary) (op : Op R)
+    (hop : op.Unitary) : (step h op).AllUnitary := by
+  unfold step
+  split
+  · cases op with
+    | new m r => exact Heap.AllUnitary_alloc hU _ (by simp)
+    | leaf i off k U =>
+      apply Heap.AllUnitary_push hU
+      intro p hp
+      simp only [List.mem_singleton] at hp
+      subst hp
+      exact hop
+    | nest i j off =>
+      apply Heap.AllUnitary_push hU
+      intro p hp
+      simp only [List.mem_singleton] at hp
+      subst hp
+      trivial
+    | merge i j off =>
+      simp only [applyOp]
+      split
+      · apply Heap.AllUnitary_push hU
+        intro p hp
+        simp only [List.mem_singleton] at hp
+        subst hp
+        trivial
+      · next x xs hx =>
+        apply Heap.AllUnitary_push hU
+        intro p hp
+        obtain ⟨q, hq, rfl⟩ := List.mem_map.mp hp
+        exact hU j q (by rw [hx]; exact hq)
+    | barrier i =>
+      apply Heap.AllUnitary_push hU
+      intro p hp
+      simp only [List.mem_singleton] at hp
+      subst hp
+      show IsUnitary (1 : Matrix (Fin (h.msize i)) (Fin (h.msize i)) R)
+      exact isUnitary_one
+    | copy i φ =>
+      apply Heap.AllUnitary_alloc hU
+      intro p hp
+      obtain ⟨q, hq, rfl⟩ := List.mem_map.mp hp
+      have hq' := hU i q hq
+      obtain ⟨o, it⟩ := q
+      cases it with
+      | val v => exact Comp.AllUnitary_map φ hop v hq'
+      | ref k => exact Comp.AllUnitary_map φ hop _ (snapshot_allUnitary hU k)
+  · exact hU
+
+theorem exec_allUnitary_of [CommRing R] [StarRing R] (ops : List (Op R)) :
+    ∀ {h : Heap R}, h.AllUnitary → (∀ op ∈ ops, op.Unitary) → (exec h ops).AllUnitary := by
+  induction ops with
+  | nil => intro h hU _; exact hU
+  | cons op r ih =>
+    intro h hU hops
+    exact ih (step_allUnitary hU op (hops op (by simp))) (fun o ho => hops o (by simp [ho]))
+
+/-! ### environments -/
+
+def atEnvHom {E S : Type} [CommRing S] (e : E) : (E → S) →+* S := Pi.evalRingHom (fun _ => S) e
+
+theorem atEnvHom_coe {E S : Type} [CommRing S] (e : E) : ⇑(atEnvHom (S := S) e) = atEnv e := rfl
+
+theorem atEnv_comp_freeze {E S : Type} (e e' : E) :
+    (atEnv e' ∘ freeze e : (E → S) → S) = atEnv e := rfl
 
 end PM.C01
